@@ -1,0 +1,201 @@
+//go:build verif
+
+package simple
+
+// Contracts for SimpleNFS (property C17), checked by /verif/govc. Comment-only.
+//
+// Abstract state: 30 files, inode numbers 2..31. The size of file i is the
+// little-endian integer at byte 128*i of block 513 (the inode block), its
+// contents are the first `size` bytes of block 514+i; both as seen through
+// the running journal operation (ghost jblk, /verif/contracts/journal_data.spec).
+
+//@ specfunc jle64(b uint64, o uint64) = uint64(jblk[b][o]) | uint64(jblk[b][o+1])<<8 | uint64(jblk[b][o+2])<<16 | uint64(jblk[b][o+3])<<24 | uint64(jblk[b][o+4])<<32 | uint64(jblk[b][o+5])<<40 | uint64(jblk[b][o+6])<<48 | uint64(jblk[b][o+7])<<56
+//@ specfunc ssize(inum uint64) = jle64(513, 128*inum)
+//@ specfunc sblk(inum uint64) = jle64(513, 128*inum + 8)
+//@ specfunc sbyte(inum uint64, i uint64) = jblk[514+inum][i]
+//@ specfunc fileno(inum uint64) = inum >= 2 && inum < 32
+//@ specfunc diskOK() = dsksize >= 546
+//@ specfunc inoOK(ip *Inode) = ip != nil && ip.Inum < 32 && ip.Data == 514 + ip.Inum && ip.Size <= 4096
+//@ specfunc synced(ip *Inode) = ssize(ip.Inum) == ip.Size && sblk(ip.Inum) == ip.Data
+//@ specfunc othersSame(inum uint64) = (forall j uint64 :: j < 32 && j != inum ==> ssize(j) == old(ssize(j)) && sblk(j) == old(sblk(j))) && (forall j uint64, i uint64 :: j < 32 && j != inum && i < 4096 ==> sbyte(j, i) == old(sbyte(j, i)))
+
+//@ spec validInum
+//@   props C17 C11
+//@   ensures [V1-range] result <==> fileno(inum) @C17
+
+//@ spec fh2ino
+//@   props C17 C11
+//@   allocates marshal.Dec, cell:uint64
+//@   ensures [V2-short] len(fh3.Data) < 8 ==> result == 0 @C17 @C11
+//@   ensures [V2-decode] len(fh3.Data) >= 8 ==> result == le64(fh3.Data, 0) @C17
+
+//@ spec (*Inode).Encode
+//@   props C17 C11
+//@   requires ip != nil
+//@   allocates []uint8, marshal.Enc, cell:uint64
+//@   ensures [S2-len] len(result) == 128 && fresh(result) @C17 @C11
+//@   ensures [S2-fields] le64(result, 0) == ip.Size && le64(result, 8) == ip.Data @C17
+
+//@ spec Decode
+//@   props C17 C11
+//@   requires buf != nil && len(buf.Data) >= 16
+//@   allocates simple.Inode, marshal.Dec, cell:uint64
+//@   ensures [S2-decode] fresh(result) && result.Inum == inum && result.Size == le64(buf.Data, 0) && result.Data == le64(buf.Data, 8) @C17
+
+// The inode table invariant (every file's block pointer is 514+i, sizes are
+// at most one block) is established by inodeInit, assumed where an inode is
+// loaded and checked where one is stored.
+//@ spec ReadInode
+//@   props C17 C11 C14
+//@   requires op != nil && diskOK() && inum < 32
+//@   requires [L1-locked] held[inum] @C17 @C14
+//@   allocates simple.Inode, buf.Buf, marshal.Dec, cell:uint64
+//@   ensures [S1-load] result != nil && fresh(result) && result.Inum == inum && result.Size == ssize(inum) && result.Data == sblk(inum) @C17
+//@   assumes [SI-table] fileno(inum) ==> result.Data == 514 + inum
+//@   assumes [SI-size] result.Size <= 4096
+
+//@ spec (*Inode).WriteInode
+//@   props C17 C11 C14
+//@   requires op != nil && diskOK() && ip != nil
+//@   requires [SI-store] inoOK(ip) @C17
+//@   requires [L1-locked] held[ip.Inum] @C17 @C14
+//@   allocates []uint8, marshal.Enc, cell:uint64
+//@   modifies jblk
+//@   ensures [S1-store] synced(ip) @C17
+//@   ensures [S1-frame] othersSame(ip.Inum) && (forall j uint64, i uint64 :: j < 32 && i < 4096 ==> sbyte(j, i) == old(sbyte(j, i))) @C17
+
+// READ: the bytes [offset, offset+count) cut at the size; eof exactly when
+// the read reaches the end of the file.
+//@ spec (*Inode).Read
+//@   props C17 C11 C14
+//@   requires op != nil && diskOK() && inoOK(ip)
+//@   requires [L1-locked] held[ip.Inum] @C17 @C14
+//@   allocates []uint8, buf.Buf
+//@   ensures [R1-past] offset >= ip.Size ==> len(result0) == 0 && result1 @C17
+//@   ensures [R1-len] offset < ip.Size ==> len(result0) == ite(bytesToRead > ip.Size - offset, ip.Size - offset, bytesToRead) @C17
+//@   ensures [R1-bytes] forall i uint64 :: i < len(result0) ==> result0[i] == sbyte(ip.Inum, offset + i) @C17
+//@   ensures [R1-eof] offset < ip.Size ==> (result1 <==> offset + len(result0) >= ip.Size) @C17
+//@   loop 0 invariant b <= countCopy && len(data) == b && len(buf.Data) == 4096 && (forall k uint64 :: k < b ==> data[k] == buf.Data[offset + k])
+//@   loop 0 decreases countCopy - b
+
+// WRITE: refused (no effect) when the count disagrees with the data, the
+// range overflows or leaves the block, or a hole would be created; otherwise
+// exactly the given bytes change and the size grows to cover them.
+//@ spec (*Inode).Write
+//@   props C17 C11 C14
+//@   requires op != nil && diskOK() && inoOK(ip) && synced(ip)
+//@   requires [L1-locked] held[ip.Inum] @C17 @C14
+//@   allocates []uint8, buf.Buf, marshal.Enc, cell:uint64
+//@   modifies jblk, ip.Size, buf.Buf.dirty, []uint8@buf.Buf.Data
+//@   ensures [W1-refuse] result1 <==> (count == len(dataBuf) && offset + count >= offset && offset + count <= 4096 && offset <= old(ip.Size)) @C17
+//@   ensures [W1-noeffect] !result1 ==> result0 == 0 && jblk == old(jblk) && ip.Size == old(ip.Size) @C17
+//@   ensures [W2-count] result1 ==> result0 == count @C17
+//@   ensures [W2-size] result1 ==> ip.Size == ite(offset + count > old(ip.Size), offset + count, old(ip.Size)) @C17
+//@   ensures [W2-bytes] result1 ==> (forall k uint64 :: offset <= k && k < offset + count ==> sbyte(ip.Inum, k) == dataBuf[k - offset]) @C17
+//@   ensures [W2-rest] result1 ==> (forall i uint64 :: i < 4096 && !(offset <= i && i < offset + count) ==> sbyte(ip.Inum, i) == old(sbyte(ip.Inum, i))) @C17
+//@   ensures [W2-others] othersSame(ip.Inum) @C17
+//@   ensures inoOK(ip) && synced(ip)
+//@   loop 0 invariant b <= count && len(buffer.Data) == 4096 && (forall k uint64 :: offset <= k && k < offset + b ==> buffer.Data[k] == dataBuf[k - offset]) && (forall k uint64 :: k < 4096 && !(offset <= k && k < offset + b) ==> buffer.Data[k] == old(sbyte(ip.Inum, k)))
+//@   loop 0 decreases count - b
+
+//@ spec (*Inode).MkFattr
+//@   props C17
+//@   requires ip != nil
+//@   ensures [G1-attr] uint64(result.Size) == ip.Size && uint64(result.Fileid) == ip.Inum && result.Ftype == 1 @C17
+
+// The procedures. Every procedure on a file takes that file's lock, runs one
+// journal operation, commits it with wait exactly once, replies OK only if
+// the commit succeeded, and ends with nothing locked.
+//@ specfunc sino(fh3 nfstypes.Nfs_fh3) = ite(len(fh3.Data) < 8, 0, le64(fh3.Data, 0))
+//@ specfunc simpleInv(nfs *Nfs) = nfs != nil && nfs.t != nil && nfs.l != nil && diskOK() && curop == 0 && noLocks()
+//@ specfunc oneCommit() = jcommits == old(jcommits) + 1
+//@ specfunc noCommit() = jcommits == old(jcommits) && jblk == old(jblk) && lastst == old(lastst)
+//@ specfunc viewSame() = jblk == old(jblk)
+
+//@ spec (*Nfs).NFSPROC3_GETATTR
+//@   props C17 C11 C14
+//@   requires simpleInv(nfs)
+//@   allocates jrnl.Op, simple.Inode, buf.Buf, marshal.Dec, cell:uint64, nfstypes.GETATTR3res
+//@   modifies held, lastst, jcommits
+//@   ensures [G1-root] sino(args.Object) == 1 ==> result.Status == 0 && result.Resok.Obj_attributes.Ftype == 2 && uint64(result.Resok.Obj_attributes.Fileid) == 1 @C17
+//@   ensures [V1-invalid] sino(args.Object) != 1 && !fileno(sino(args.Object)) ==> result.Status == 22 && noCommit() @C17 @C11
+//@   ensures [G1-size] fileno(sino(args.Object)) && result.Status == 0 ==> uint64(result.Resok.Obj_attributes.Size) == ssize(sino(args.Object)) && uint64(result.Resok.Obj_attributes.Fileid) == sino(args.Object) && result.Resok.Obj_attributes.Ftype == 1 @C17
+//@   ensures [A1-acked] fileno(sino(args.Object)) ==> oneCommit() && (result.Status == 0 <==> lastst == 1) && (result.Status == 0 || result.Status == 10006) @C17
+//@   ensures [A2-readonly] viewSame() @C17
+//@   ensures [L2-quiet] noLocks() @C17 @C14
+
+//@ spec (*Nfs).NFSPROC3_READ
+//@   props C17 C11 C14
+//@   requires simpleInv(nfs)
+//@   allocates jrnl.Op, simple.Inode, buf.Buf, marshal.Dec, cell:uint64, nfstypes.READ3res, []uint8
+//@   modifies held, lastst, jcommits
+//@   ensures [V1-invalid] !fileno(sino(args.File)) ==> result.Status == 22 && noCommit() @C17 @C11
+//@   ensures [R1-past] fileno(sino(args.File)) && result.Status == 0 && uint64(args.Offset) >= ssize(sino(args.File)) ==> len(result.Resok.Data) == 0 && result.Resok.Eof @C17
+//@   ensures [R1-len] fileno(sino(args.File)) && result.Status == 0 && uint64(args.Offset) < ssize(sino(args.File)) ==> len(result.Resok.Data) == ite(uint64(args.Count) > ssize(sino(args.File)) - uint64(args.Offset), ssize(sino(args.File)) - uint64(args.Offset), uint64(args.Count)) @C17
+//@   ensures [R1-bytes] fileno(sino(args.File)) && result.Status == 0 ==> (forall i uint64 :: i < len(result.Resok.Data) ==> result.Resok.Data[i] == sbyte(sino(args.File), uint64(args.Offset) + i)) @C17
+//@   ensures [R1-eof] fileno(sino(args.File)) && result.Status == 0 && uint64(args.Offset) < ssize(sino(args.File)) ==> (result.Resok.Eof <==> uint64(args.Offset) + len(result.Resok.Data) >= ssize(sino(args.File))) @C17
+//@   ensures [R1-count] fileno(sino(args.File)) && result.Status == 0 ==> uint64(result.Resok.Count) == len(result.Resok.Data) @C17
+//@   ensures [A1-acked] fileno(sino(args.File)) ==> oneCommit() && (result.Status == 0 <==> lastst == 1) && (result.Status == 0 || result.Status == 10006) @C17
+//@   ensures [A2-readonly] viewSame() @C17
+//@   ensures [L2-quiet] noLocks() @C17 @C14
+
+//@ specfunc wrOK(args nfstypes.WRITE3args, size uint64) = uint64(args.Count) == len(args.Data) && uint64(args.Offset) + uint64(args.Count) >= uint64(args.Offset) && uint64(args.Offset) + uint64(args.Count) <= 4096 && uint64(args.Offset) <= size
+//@ spec (*Nfs).NFSPROC3_WRITE
+//@   props C17 C11 C14
+//@   requires simpleInv(nfs)
+//@   allocates jrnl.Op, simple.Inode, buf.Buf, marshal.Dec, marshal.Enc, cell:uint64, nfstypes.WRITE3res, []uint8
+//@   modifies held, lastst, jcommits, jblk, buf.Buf.dirty, []uint8@buf.Buf.Data
+//@   ensures [V1-invalid] !fileno(sino(args.File)) ==> result.Status == 22 && noCommit() @C17 @C11
+//@   ensures [W1-refuse] fileno(sino(args.File)) && !wrOK(args, old(ssize(sino(args.File)))) ==> result.Status == 10006 && noCommit() @C17
+//@   ensures [A1-acked] fileno(sino(args.File)) && wrOK(args, old(ssize(sino(args.File)))) ==> oneCommit() && (result.Status == 0 <==> lastst == 1) && (result.Status == 0 || result.Status == 10006) @C17
+//@   ensures [W2-reply] result.Status == 0 ==> uint64(result.Resok.Count) == uint64(args.Count) && result.Resok.Committed == 2 @C17
+//@   ensures [W2-size] result.Status == 0 ==> ssize(sino(args.File)) == ite(uint64(args.Offset) + uint64(args.Count) > old(ssize(sino(args.File))), uint64(args.Offset) + uint64(args.Count), old(ssize(sino(args.File)))) @C17
+//@   ensures [W2-bytes] result.Status == 0 ==> (forall k uint64 :: uint64(args.Offset) <= k && k < uint64(args.Offset) + uint64(args.Count) ==> sbyte(sino(args.File), k) == args.Data[k - uint64(args.Offset)]) @C17
+//@   ensures [W2-rest] result.Status == 0 ==> (forall i uint64 :: i < 4096 && !(uint64(args.Offset) <= i && i < uint64(args.Offset) + uint64(args.Count)) ==> sbyte(sino(args.File), i) == old(sbyte(sino(args.File), i))) @C17
+//@   ensures [W2-others] othersSame(sino(args.File)) @C17
+//@   ensures [L2-quiet] noLocks() @C17 @C14
+
+//@ spec (*Nfs).NFSPROC3_SETATTR
+//@   props C17 C11 C14
+//@   requires simpleInv(nfs)
+//@   allocates jrnl.Op, simple.Inode, buf.Buf, marshal.Dec, marshal.Enc, cell:uint64, nfstypes.SETATTR3res, []uint8
+//@   modifies held, lastst, jcommits, jblk, buf.Buf.dirty, []uint8@buf.Buf.Data
+//@   ensures [V1-invalid] !fileno(sino(args.Object)) ==> result.Status == 22 && noCommit() @C17 @C11
+//@   ensures [T1-toobig] fileno(sino(args.Object)) && args.New_attributes.Size.Set_it && uint64(args.New_attributes.Size.Size) > 4096 ==> result.Status == 28 && noCommit() @C17
+//@   ensures [T1-nosize] fileno(sino(args.Object)) && !args.New_attributes.Size.Set_it ==> viewSame() && oneCommit() @C17
+//@   ensures [A1-acked] fileno(sino(args.Object)) && !(args.New_attributes.Size.Set_it && uint64(args.New_attributes.Size.Size) > 4096) ==> oneCommit() && (result.Status == 0 <==> lastst == 1) && (result.Status == 0 || result.Status == 10006) @C17
+//@   ensures [T2-size] result.Status == 0 && args.New_attributes.Size.Set_it ==> ssize(sino(args.Object)) == uint64(args.New_attributes.Size.Size) @C17
+//@   ensures [T2-zerofill] result.Status == 0 && args.New_attributes.Size.Set_it ==> (forall i uint64 :: old(ssize(sino(args.Object))) <= i && i < uint64(args.New_attributes.Size.Size) ==> sbyte(sino(args.Object), i) == 0) @C17
+//@   ensures [T2-keep] result.Status == 0 ==> (forall i uint64 :: i < old(ssize(sino(args.Object))) && i < 4096 ==> sbyte(sino(args.Object), i) == old(sbyte(sino(args.Object), i))) @C17
+//@   ensures [T2-others] othersSame(sino(args.Object)) @C17
+//@   ensures [L2-quiet] noLocks() @C17 @C14
+
+//@ spec (*Nfs).NFSPROC3_COMMIT
+//@   props C17 C11 C14
+//@   requires simpleInv(nfs)
+//@   allocates jrnl.Op, nfstypes.COMMIT3res
+//@   modifies held, lastst, jcommits
+//@   ensures [V1-invalid] !fileno(sino(args.File)) ==> result.Status == 22 && noCommit() @C17 @C11
+//@   ensures [A1-acked] fileno(sino(args.File)) ==> oneCommit() && (result.Status == 0 <==> lastst == 1) @C17
+//@   ensures [A2-readonly] viewSame() @C17
+//@   ensures [L2-quiet] noLocks() @C17 @C14
+
+//@ spec (*Nfs).NFSPROC3_FSINFO
+//@   props C17
+//@   ensures [Q-limits] result.Status == 0 && result.Resok.Wtmax == 4096 && uint64(result.Resok.Maxfilesize) == 4096 @C17
+
+//@ spec (*Nfs).NFSPROC3_LOOKUP
+//@   props C17 C11
+//@   allocates []uint8, marshal.Enc, cell:uint64, nfstypes.LOOKUP3res
+//@   ensures [K1-names] (args.What.Name == "a" || args.What.Name == "b") <==> result.Status == 0 @C17
+//@   ensures [K1-handle] result.Status == 0 ==> fileno(sino(result.Resok.Object)) && (args.What.Name == "a" ==> sino(result.Resok.Object) == 2) && (args.What.Name == "b" ==> sino(result.Resok.Object) == 3) @C17
+
+// mkfs: every inode gets its fixed data block (establishes SI-table).
+//@ spec inodeInit
+//@   props C17 C11
+//@   requires op != nil && diskOK() && (forall i uint64 :: i < 32 ==> held[i])
+//@   allocates simple.Inode, buf.Buf, marshal.Dec, marshal.Enc, cell:uint64, []uint8
+//@   modifies jblk
+//@   ensures [SI-init] forall j uint64 :: j < 32 ==> sblk(j) == 514 + j @C17
+//@   loop 0 invariant i <= 32 && (forall j uint64 :: j < i ==> sblk(j) == 514 + j) && (forall p *Inode :: !fresh(p) ==> p.Data == old(p.Data))
+//@   loop 0 decreases 32 - i
